@@ -216,11 +216,12 @@ pub fn vto_vec_u8(s: &[u8]) -> (r: Vec<u8>)
 { s.to_vec() }
 
 /// Named C15 obligation [alloc_proportional] (DESIGN C15): a buffer whose size
-/// is taken from file content must be bounded by the codec's 16 MiB limit.
-/// `P ==> P` lemmas (proved); the name is what is reported.
-pub proof fn c15_alloc(n: u64)
-    requires n <= 16777216, /*@PL:alloc_proportional*/
-    ensures n <= 16777216,
+/// is taken from file content is no larger than the file it is read from
+/// (allocation <= file length).  `P ==> P` lemma (proved); the name is what is
+/// reported.
+pub proof fn c15_alloc(n: u64, file_len: u64)
+    requires n <= file_len, /*@PL:alloc_proportional*/
+    ensures n <= file_len,
 {}
 /// the same at the call sites that pass a record of a well-formed log (FS_INV)
 pub proof fn c15_alloc_on_wf_log(n: int)
